@@ -295,6 +295,8 @@ func (rw *ReadWriter) Initialize() error {
 	}
 	msgName := msgGoToDef(rw.elemType.Name()[len("Message"):])
 
+	sizeNormal, sizeExtended := 0, 0
+
 	// collect message fields
 	for i := 0; i < rw.elemType.NumField(); i++ {
 		field := rw.elemType.Field(i)
@@ -303,6 +305,9 @@ func (rw *ReadWriter) Initialize() error {
 
 		// array
 		if goType.Kind() == reflect.Array {
+			if goType.Len() > 255 {
+				return fmt.Errorf("array is too long: %d", goType.Len())
+			}
 			arrayLength = byte(goType.Len())
 			goType = goType.Elem()
 		}
@@ -349,7 +354,7 @@ func (rw *ReadWriter) Initialize() error {
 					arrayLength = 1
 				} else { // string
 					slen, err := strconv.Atoi(tagLen)
-					if err != nil {
+					if err != nil || slen < 0 || slen > 255 {
 						return fmt.Errorf("string has invalid length: %v", tagLen)
 					}
 					arrayLength = byte(slen)
@@ -361,11 +366,11 @@ func (rw *ReadWriter) Initialize() error {
 		isExtension := (field.Tag.Get("mavext") == "true")
 
 		// size
-		var size byte
+		var size int
 		if arrayLength > 0 {
-			size = fieldTypeSizes[dialectType] * arrayLength
+			size = int(fieldTypeSizes[dialectType]) * int(arrayLength)
 		} else {
-			size = fieldTypeSizes[dialectType]
+			size = int(fieldTypeSizes[dialectType])
 		}
 
 		rw.fields[i] = &decEncoderField{
@@ -382,11 +387,18 @@ func (rw *ReadWriter) Initialize() error {
 			isExtension: isExtension,
 		}
 
-		rw.sizeExtended += size
+		sizeExtended += size
 		if !isExtension {
-			rw.sizeNormal += size
+			sizeNormal += size
 		}
 	}
+
+	// a payload cannot exceed 255 bytes
+	if sizeExtended > 255 {
+		return fmt.Errorf("message is too big: %d bytes", sizeExtended)
+	}
+	rw.sizeNormal = byte(sizeNormal)
+	rw.sizeExtended = byte(sizeExtended)
 
 	// reorder fields as described in
 	// https://mavlink.io/en/guide/serialization.html#field_reordering
